@@ -125,8 +125,9 @@ def _decode_tla_string(s):
 
 
 class Tlc:
-    def __init__(self, workdir):
+    def __init__(self, workdir, seed=None):
         self.workdir = workdir
+        self.seed = seed          # default -seed of every run: RandomElement / -simulate are reproducible per VERIF_SEED
         os.makedirs(workdir, exist_ok=True)
 
     def _run(self, module_path, cfg_path, args, env_extra=None, jvm=None, timeout=3600, keep_raw=False,
@@ -202,6 +203,7 @@ class Tlc:
             args += ["-simulate", f"num={simulate}"]
             if depth:
                 args += ["-depth", str(depth)]
+        seed = self.seed if seed is None else seed
         if seed is not None:
             args += ["-seed", str(seed)]
         return self._run(module_path, cfg_path, args, jvm=[f"-Xmx{mem}"], timeout=timeout, on_case=on_case,
@@ -234,7 +236,7 @@ class Check:
         shutil.rmtree(self.workdir, ignore_errors=True)
         os.makedirs(self.workdir, exist_ok=True)
         self.replaydir = os.path.join(VERIF, "replays", prop)
-        self.tlc = Tlc(self.workdir)
+        self.tlc = Tlc(self.workdir, seed)
         self.known = [k for k in load_known() if k.get("property") == prop and k.get("status") == "open"]
         self.violations = []       # unknown violations
         self.known_hits = {}       # finding id -> count
